@@ -26,6 +26,8 @@ def lru_slices(q_n, q_len, bfs_caps, bfs_states):
         dict(name="lru-bfs", slice="lru_bfs", args=["--n", bfs_caps, "--len", bfs_states], shards=8),
         dict(name="lru-rand", slice="lru", args=["--n", q_n, "--len", q_len], shards=8),
         dict(name="lru-big", slice="lru", args=["--n", 60 if q_n >= 10000 else 8, "--len", 6000, "--big", 1], shards=4),
+        # RawLRU<TKey, ()>: a zero-sized value type, replayed in the same model (harness/src/zst.rs)
+        dict(name="lru-zst", slice="lruzst", args=["--n", max(300, q_n // 4), "--len", q_len], shards=4),
     ]
 
 
@@ -36,6 +38,8 @@ def comp_slices(n, ln, lfu_n):
         dict(name="arc", slice="arc", args=["--n", n, "--len", ln], shards=4),
         dict(name="wtiny", slice="wtiny", args=["--n", lfu_n, "--len", ln], shards=4),
         comp_bfs(n >= 10000),
+        # the same three caches over (TKey, ()): a zero-sized value type, replayed in the same models (harness/src/zst.rs)
+        dict(name="comp-zst", slice="compzst", args=["--n", max(600, n // 3), "--len", ln], shards=4),
     ] + comp_big(n >= 10000)
 
 
@@ -58,6 +62,18 @@ def liar_slice(thorough):
                 shards=8 if thorough else 4, model=False)
 
 
+def big_hgroups(thorough):
+    """hasher groups on caches of 20 ... 513 entries (hash tables of 32 ... 1024 buckets: growth, tombstones, full groups)"""
+    n = 600 if thorough else 100      # members: five per group
+    return [dict(name=w + "-big-h", slice=w, args=["--n", n, "--len", 4000, "--big", 1, "--hgroup", 1], shards=8 if thorough else 4)
+            for w in ("lru", "slru", "twoq", "arc")]
+
+
+def comp_zst(thorough):
+    """SegmentedCache / TwoQueueCache / AdaptiveCache over (TKey, ()): a zero-sized value type, replayed in the same models"""
+    return dict(name="comp-zst", slice="compzst", args=["--n", 20000 if thorough else 900, "--len", 400 if thorough else 150], shards=8 if thorough else 4)
+
+
 def comp_bfs(thorough):
     """breadth-first closure of the small SegmentedCache / TwoQueueCache / AdaptiveCache configurations"""
     return dict(name="comp-bfs", slice="comp_bfs", args=["--n", 3 if thorough else 2, "--len", 4000 if thorough else 300],
@@ -73,10 +89,13 @@ PROPS = {
                           "C01_lru_step", "C01_slru_step", "C01_twoq_step", "C01_arc_step", "C01_wtiny_step"]},
         slices=dict(quick=lru_slices(1500, 150, 2, 100000) + comp_slices(1500, 150, 800) +
                           [dict(name="wtiny-nostd", slice="wtiny", args=["--n", 400, "--len", 150], shards=2, features="nostd"),
-                           dict(name="twoq-nostd", slice="twoq", args=["--n", 400, "--len", 150], shards=2, features="nostd")],
+                           dict(name="twoq-nostd", slice="twoq", args=["--n", 400, "--len", 150], shards=2, features="nostd"),
+                           # the bound in the states a panic in user code leaves behind (RawLRU, one injected panic per history)
+                           dict(name="flru", slice="flru", args=["--n", 800, "--len", 16], shards=4)],
                     thorough=lru_slices(30000, 400, 3, 1000000) + comp_slices(30000, 400, 15000) +
                              [dict(name="wtiny-nostd", slice="wtiny", args=["--n", 8000, "--len", 400], shards=8, features="nostd"),
-                              dict(name="twoq-nostd", slice="twoq", args=["--n", 8000, "--len", 400], shards=8, features="nostd")]),
+                              dict(name="twoq-nostd", slice="twoq", args=["--n", 8000, "--len", 400], shards=8, features="nostd"),
+                              dict(name="flru", slice="flru", args=["--n", 25000, "--len", 22], shards=16)]),
         corpus=ALL_CORPUS,
         monitors=["mon_c01"],
         assumptions=["std HashMap / hashbrown behave as a finite map (the index of each list)",
@@ -124,7 +143,7 @@ PROPS = {
         corpus=ALL_CORPUS + ["hlru", "hslru", "htwoq", "harc", "hwtiny"],
         monitors=["mon_c03"],
         partial="the theorems are about the heap models, tied to the code by the node-level correspondence (a change of the code that the model does not follow shows as a divergence, not as a broken proof); the hash index is an association list, not hashbrown; the heap-level step machines run the whole public alphabet of each cache against the code (iterators over every list, Clone, the per-list and per-segment accessors) except Debug for RawLRU; FromIterator / the From impls are an instance of the history theorem (C03_from_iter) and the list each conversion builds is audited through the hook (ctor slice); reads through lifetime-erased references after the call returned are C19's business",
-        assumptions=["std HashMap / hashbrown behave as a finite map from keys to node addresses (the index); the model's index is an association list searched by the key stored in the node",
+        assumptions=["the panics counted in this run are the library's own unwrap()s in the lruliar slice (a hasher whose answers change while keys are stored, where std allows panics, leaks and wrong results); each is followed by the weak audit of the list", "std HashMap / hashbrown behave as a finite map from keys to node addresses (the index); the model's index is an association list searched by the key stored in the node",
                      "the allocator never hands out a live address again (fresh addresses in the model; the harness quarantines freed blocks)"],
     ),
     "C18": dict(
@@ -161,7 +180,7 @@ PROPS = {
         corpus=ALL_CORPUS,
         monitors=["mon_c04"],
         partial="object-level release-exactly-once is carried by the correspondence run (drop ledger + allocator), not by a theorem; a double free invisible to the quarantining allocator is outside both",
-        assumptions=["the harness drops every value the API hands back before the ledger is read, so alive = retained"],
+        assumptions=["the panics counted in this run are the library's own unwrap()s in the lruliar slice (a hasher whose answers change while keys are stored, where std allows panics, leaks and wrong results); each is followed by the weak audit of the list", "the harness drops every value the API hands back before the ledger is read, so alive = retained"],
     ),
     "C05": dict(
         level_text="Constructors: an executable binary64 model (Flocq) of the constructors (RawLRU::new / with_hasher / with_on_evict_cb / with_on_evict_cb_and_hasher, SegmentedCache::new, TwoQueueCache::new / with_recent_ratio / with_ghost_ratio / with_2q_parameters, AdaptiveCache::new, WTinyLFUCache::new / with_sizes, TinyLFU::new) and of the four builders a user can name (TwoQueueCacheBuilder, SegmentedCacheBuilder, AdaptiveCacheBuilder, WTinyLFUCacheBuilder: a record of fields, default() / new(..), every setter incl. the hasher setters, finalize and from_builder) - size checks, ratio validation incl. NaN / infinities / -0.0 / out-of-range values, the float sub-size computations of TwoQueueCache and WTinyLFUCache::new - proved total with the documented rejections (a ratio is accepted iff it is a finite number of [0,1]; a setter writes its own field and carries every other one, so finalize is the constructor function of the values set last) and replayed against the real constructors and builders on the whole argument grid, on random bit patterns and on random setter scripts. Conversions: FromIterator and the eleven From impls of RawLRU (slices, arrays, Vec, VecDeque, LinkedList, HashSet, BTreeSet, BinaryHeap, HashMap, BTreeMap) are Lru.from_iter on the pairs in the source's iteration order - total, capacity max(1, number of pairs), nothing evicted, every key retained with the value of its last occurrence (C05_conversions) - and are replayed against the real conversions (empty sources, repeated keys, every source type). Operations: Coq theorems: in the models every unwrap(), index and overflow-checked addition of the library is an explicit Panic value; for SegmentedCache, TwoQueueCache, AdaptiveCache and WTinyLFUCache every operation of every reachable state returns Ok (induction over histories with the C01 invariants), RawLRU's step is total by construction, TinyLFU's increment/estimate/contains/compare/reset/clear return Ok for every 64-bit hash on every estimator the constructor builds (both sketch variants), and the sketch/sample-size validation of the constructor is proved. The models are tied to /repo by differential execution under catch_unwind, std and no_std builds, overflow checks on.",
@@ -243,8 +262,8 @@ PROPS = {
                            dict(name="hslru-h", slice="hslru", args=["--n", 1000, "--len", 100, "--hgroup", 1], shards=2),
                            dict(name="htwoq-h", slice="htwoq", args=["--n", 1000, "--len", 100, "--hgroup", 1], shards=2),
                            dict(name="harc-h", slice="harc", args=["--n", 1000, "--len", 100, "--hgroup", 1], shards=2),
-                           dict(name="ctor", slice="ctor", args=["--n", 60, "--len", 150], shards=2)],
-                    thorough=[dict(name="ctor", slice="ctor", args=["--n", 4000, "--len", 300], shards=8),
+                           dict(name="ctor", slice="ctor", args=["--n", 60, "--len", 150], shards=2)] + big_hgroups(False),
+                    thorough=big_hgroups(True) + [dict(name="ctor", slice="ctor", args=["--n", 4000, "--len", 300], shards=8),
                               dict(name="hlru-h", slice="hlru", args=["--n", 40000, "--len", 300, "--hgroup", 1], shards=16),
                               dict(name="hslru-h", slice="hslru", args=["--n", 30000, "--len", 300, "--hgroup", 1], shards=8),
                               dict(name="htwoq-h", slice="htwoq", args=["--n", 30000, "--len", 300, "--hgroup", 1], shards=8),
@@ -276,7 +295,7 @@ PROPS = {
         level_text='Coq theorems over an executable model of SampledLFU: after every sequence of increment (also on a tracked key), update, remove, clear, update_max_cost, room_left(c) = max_cost - sum of recorded costs - c in the i64 arithmetic of the code (costs are arbitrary i64 values, sums wrap: exact modulo 2^64, and the plain integer whenever that fits an i64); update/remove report exactly whether the key was tracked and its cost; fill_sample returns its input followed by distinct tracked pairs up to the sample size, for every hash-map iteration order. Tied to /repo by differential execution through all seven constructors, with costs and capacities drawn from the ends of the i64 range as well.',
         props_files=["C20"],
         theorems={"C20": ["C20_room_left_exact", "C20_room_left_exact_in_range", "C20_tracked_keys_distinct", "C20_update_reports_tracked",
-                          "C20_remove_reports_cost", "C20_fill_sample"]},
+                          "C20_remove_reports_cost", "C20_fill_sample", "C20_fill_sample_saturates", "C20_fill_sample_size_irrelevant"]},
         slices=dict(quick=[dict(name="sampled", slice="sampled", args=["--n", 4000, "--len", 150], shards=8),
                            dict(name="sampled-huge", slice="sampled", args=["--n", 300, "--len", 150, "--big", 1], shards=4, model=False)],
                     thorough=[dict(name="sampled", slice="sampled", args=["--n", 80000, "--len", 400], shards=16),
@@ -293,8 +312,8 @@ PROPS = {
                           "C07_probationary_hit_promotes_put", "C07_promotion_never_evicts",
                           "C07_protected_hit_refreshes_get", "C07_protected_hit_refreshes_put",
                           "C07_miss_changes_nothing", "C07_put_protected"]},
-        slices=dict(quick=[dict(name="slru", slice="slru", args=["--n", 6000, "--len", 150], shards=12), comp_bfs(False)] + comp_big(False, ("slru",)),
-                    thorough=[dict(name="slru", slice="slru", args=["--n", 120000, "--len", 400], shards=16), comp_bfs(True)] + comp_big(True, ("slru",))),
+        slices=dict(quick=[dict(name="slru", slice="slru", args=["--n", 6000, "--len", 150], shards=12), comp_bfs(False), comp_zst(False)] + comp_big(False, ("slru",)),
+                    thorough=[dict(name="slru", slice="slru", args=["--n", 120000, "--len", 400], shards=16), comp_bfs(True), comp_zst(True)] + comp_big(True, ("slru",))),
         corpus=["slru"],
         monitors=["mon_c07", "mon_c01"],
         assumptions=["put_protected of a new key into a full protected segment evicts protected's own least-recent entry "
@@ -311,12 +330,12 @@ PROPS = {
                            dict(name="ctor", slice="ctor", args=["--n", 60, "--len", 150], shards=2),
                            dict(name="ctor-nostd", slice="ctor", args=["--n", 60, "--len", 150], shards=2, features="nostd"),
                            dict(name="twoq-nostd", slice="twoq", args=["--n", 1500, "--len", 150], shards=4, features="nostd"),
-                           comp_bfs(False)] + comp_big(False, ("twoq",)),
+                           comp_bfs(False), comp_zst(False)] + comp_big(False, ("twoq",)),
                     thorough=[dict(name="twoq", slice="twoq", args=["--n", 120000, "--len", 400], shards=16),
                               dict(name="ctor", slice="ctor", args=["--n", 4000, "--len", 300], shards=8),
                               dict(name="ctor-nostd", slice="ctor", args=["--n", 4000, "--len", 300], shards=8, features="nostd"),
                               dict(name="twoq-nostd", slice="twoq", args=["--n", 30000, "--len", 400], shards=16, features="nostd"),
-                              comp_bfs(True)] + comp_big(True, ("twoq",))),
+                              comp_bfs(True), comp_zst(True)] + comp_big(True, ("twoq",))),
         corpus=["twoq"],
         monitors=["mon_c08", "mon_c01"],
         assumptions=["quota and ghost capacity are read from the real cache through the verif-hooks accessor and compared with floor(size*ratio) computed by the harness"],
@@ -327,8 +346,8 @@ PROPS = {
         theorems={"C09": ["C09_reachable", "C09_replace", "C09_promotion_put", "C09_promotion_get",
                           "C09_frequent_hit_put", "C09_frequent_hit_get", "C09_get_miss", "C09_recent_ghost_hit",
                           "C09_frequent_ghost_hit", "C09_new_key"]},
-        slices=dict(quick=[dict(name="arc", slice="arc", args=["--n", 6000, "--len", 150], shards=12), comp_bfs(False)] + comp_big(False, ("arc",)),
-                    thorough=[dict(name="arc", slice="arc", args=["--n", 120000, "--len", 400], shards=16), comp_bfs(True)] + comp_big(True, ("arc",))),
+        slices=dict(quick=[dict(name="arc", slice="arc", args=["--n", 6000, "--len", 150], shards=12), comp_bfs(False), comp_zst(False)] + comp_big(False, ("arc",)),
+                    thorough=[dict(name="arc", slice="arc", args=["--n", 120000, "--len", 400], shards=16), comp_bfs(True), comp_zst(True)] + comp_big(True, ("arc",))),
         corpus=["arc"],
         monitors=["mon_c09", "mon_c01"],
         assumptions=["the four lists and p are read through the verif-hooks accessor / partition()"],
@@ -340,9 +359,11 @@ PROPS = {
                           "C10_admission_filter", "C10_get_records_access", "C10_purge_clears_estimator",
                           "C10_window_hit_moves_to_protected", "C10_main_hit_put"]},
         slices=dict(quick=[dict(name="wtiny", slice="wtiny", args=["--n", 3000, "--len", 150], shards=12),
-                           dict(name="wtiny-nostd", slice="wtiny", args=["--n", 600, "--len", 150], shards=4, features="nostd")] + comp_big(False, ("wtiny",)),
+                           dict(name="wtiny-nostd", slice="wtiny", args=["--n", 600, "--len", 150], shards=4, features="nostd"),
+                           dict(name="wtiny-hot", slice="wtiny", args=["--n", 200, "--len", 1500, "--hot", 1], shards=4)] + comp_big(False, ("wtiny",)),
                     thorough=[dict(name="wtiny", slice="wtiny", args=["--n", 60000, "--len", 400], shards=16),
-                              dict(name="wtiny-nostd", slice="wtiny", args=["--n", 15000, "--len", 400], shards=16, features="nostd")] + comp_big(True, ("wtiny",))),
+                              dict(name="wtiny-nostd", slice="wtiny", args=["--n", 15000, "--len", 400], shards=16, features="nostd"),
+                              dict(name="wtiny-hot", slice="wtiny", args=["--n", 4000, "--len", 2500, "--hot", 1], shards=16)] + comp_big(True, ("wtiny",))),
         corpus=["wtiny"],
         monitors=["mon_c10", "mon_c01"],
         assumptions=["sketch seeds and Bloom geometry are read from the real estimator through the verif-hooks accessor and validated (bloom_geometry_ok)",
